@@ -36,6 +36,7 @@ pub fn pred_class(p: &Pred) -> String {
         Pred::Real(_) => "real".to_string(),
         Pred::DefaultBody(_) => "default_body".to_string(),
         Pred::MockPanic(c, _) => format!("panic:{c:?}"),
+        Pred::UserPanic(t, _) => format!("user-panic:{t}"),
         Pred::Unspecified(_) => "unspecified".to_string(),
     }
 }
